@@ -122,8 +122,13 @@ func (p *Pather) findDestinations(dst addr.IA, ups, cores seg.Segments) map[addr
 		all = append(all, ups.FirstIAs()...)
 	}
 	destinations := make(map[addr.IA]struct{})
-	for _, dst := range all {
-		destinations[dst] = struct{}{}
+	for _, ia := range all {
+		// Only core ASes of the requested ISD are destinations of a wildcard
+		// lookup, whatever segments the reply contained.
+		if ia.ISD() != dst.ISD() {
+			continue
+		}
+		destinations[ia] = struct{}{}
 	}
 	return destinations
 }
